@@ -41,11 +41,9 @@ func checkLabelAfter(mode int, org int64, body string, sb []Sub) {
 	}
 	vrt.Reach("c03.accepted")
 	n := len(out)
-	lbl := uint32(out[n-6]) | uint32(out[n-5])<<8 | uint32(out[n-4])<<16 | uint32(out[n-3])<<24
-	dollar := uint32(out[n-2]) | uint32(out[n-1])<<8
 	var acc diffAcc
-	acc.eq(uint64(lbl), uint64(uint32(org+int64(n-6))))
-	acc.eq(uint64(dollar), uint64(uint32(org+int64(n-2))&0xffff))
+	acc.eqLE(out[n-6:n-2], org+int64(n-6))
+	acc.eqLE(out[n-2:], org+int64(n-2))
 	vrt.Assert(acc.d == 0, "c03.label")
 }
 
@@ -95,10 +93,8 @@ func VC03Org() {
 	}
 	vrt.Reach("c03o.accepted")
 	n := len(out)
-	lbl := uint32(out[n-6]) | uint32(out[n-5])<<8 | uint32(out[n-4])<<16 | uint32(out[n-3])<<24
-	dollar := uint32(out[n-2]) | uint32(out[n-1])<<8
 	var acc diffAcc
-	acc.eq(uint64(lbl), uint64(uint32(org+int64(n-6))))
-	acc.eq(uint64(dollar), uint64(uint32(org+int64(n-2))&0xffff))
+	acc.eqLE(out[n-6:n-2], org+int64(n-6))
+	acc.eqLE(out[n-2:], org+int64(n-2))
 	vrt.Assert(acc.d == 0, "c03.orglabel")
 }
